@@ -37,6 +37,12 @@ def get_interaction_matrix(x, y):
     if y.ndim == 1:
         y = y[:, np.newaxis]
 
+    # The product of two narrow integer columns (int8, uint8, int16, ...) wraps around silently
+    if x.dtype.kind in "iub" and x.dtype.itemsize < 8:
+        x = x.astype(np.int64)
+    if y.dtype.kind in "iub" and y.dtype.itemsize < 8:
+        y = y.astype(np.int64)
+
     for j1 in range(x.shape[1]):
         for j2 in range(y.shape[1]):
             l.append(x[:, j1] * y[:, j2])
